@@ -143,6 +143,10 @@ func ruleImplicitPanic(w *World, r *Run, rule string, reach map[*ssa.Function]bo
 					has = true
 				case *ssa.Index, *ssa.SliceToArrayPointer:
 					has = true
+				case *ssa.MakeSlice:
+					if _, isC := x.Len.(*ssa.Const); !isC {
+						has = true
+					}
 				case *ssa.Slice:
 					if x.Low != nil || x.High != nil {
 						has = true
@@ -236,6 +240,25 @@ func ruleImplicitPanic(w *World, r *Run, rule string, reach map[*ssa.Function]bo
 					ln := mk("len", "", 0, types.Typ[types.Int], ev.Recv)
 					if implies(facts, "<", ln, ev.Args[0], false) {
 						ok, why = true, "dominated by facts implying len >= array length"
+					}
+				case "makeslice":
+					kind = "makeslice"
+					desc = "make(len=" + descOperand(ev.Args[0]) + ", cap=" + descOperand(ev.Args[1]) + ")"
+					ok, why = true, "length and capacity are constants, len(…) of existing data, or bounded by facts"
+					for _, n := range ev.Args {
+						switch {
+						case n == nil:
+						case n.Kind == "const":
+							if c, isC := constVal(n); !isC || c.Sign() < 0 {
+								ok = false
+							}
+						case n.Kind == "len":
+						default:
+							// must be bounded: 0 <= n <= 2^20 by the facts on the path
+							if !(implies(facts, "<", n, zero, false) && implies(facts, "<", mk("const", "1048576", 0, types.Typ[types.Int]), n, false)) {
+								ok = false
+							}
+						}
 					}
 				case "typeassert":
 					kind = "typeassert"
@@ -754,15 +777,24 @@ func ruleSumDBConstants(w *World, r *Run) {
 		r.Undecided("C18.b", sp, "", "package not loaded")
 		return
 	}
-	th, _ := fp.Types.Scope().Lookup("tileHeight").(*types.Const)
-	lp, _ := fp.Types.Scope().Lookup("leavesPerTile").(*types.Const)
-	if th == nil || lp == nil {
-		r.Undecided("C18.b", sp+" constants", "", "tileHeight/leavesPerTile not found")
+	// the tile height is whatever the tile reader reports to tlog (a constant)
+	var h int64 = -1
+	if hs, _, ok := explore(w, r, "C18.b", "("+sp+".tileReader).Height", 4, 1); ok {
+		for _, s := range hs {
+			if c, okc := constVal(s.Rets[0]); okc && c.IsInt64() {
+				h = c.Int64()
+			}
+		}
+	}
+	if h <= 0 || h > 30 {
+		r.Undecided("C18.b", sp+" tile height", "", "tileReader.Height() is not a positive constant")
 		return
 	}
-	h, _ := constant.Int64Val(th.Val())
-	l, _ := constant.Int64Val(lp.Val())
-	r.Check(h > 0 && h < 31 && l == 1<<uint(h), "C18.b", sp+".leavesPerTile == 1 << tileHeight", w.pos(lp.Pos()), fmt.Sprintf("leavesPerTile=%d but tileHeight=%d", l, h))
+	l := int64(1) << uint(h)
+	if lp, _ := fp.Types.Scope().Lookup("leavesPerTile").(*types.Const); lp != nil {
+		lv, _ := constant.Int64Val(lp.Val())
+		r.Check(lv == l, "C18.b", sp+".leavesPerTile == 1 << tile height", w.pos(lp.Pos()), fmt.Sprintf("leavesPerTile=%d but the tile height is %d", lv, h))
+	}
 	if sums, _, ok := explore(w, r, "C18.b", "("+sp+".tileReader).Height", 4, 1); ok {
 		for _, s := range sums {
 			c, _ := constInt(s.Rets[0])
@@ -795,32 +827,25 @@ func ruleSumDBConstants(w *World, r *Run) {
 			tds := calls(s, td)
 			for i, c := range tds {
 				nCall++
+				// which tile is this request for? (taken from the level argument, not from the call's ordinal)
+				idx := fmt.Sprint(i)
+				anySub(c.Args[0], func(t *Term) bool {
+					if t.Kind == "indexaddr" && t.Args[0] == tiles && t.Args[1].Kind == "const" {
+						idx = t.Args[1].Name
+					}
+					return false
+				})
 				el := func(f string) *Term {
-					return mk("field", f, 0, nil, mk("deref", "", 0, nil, mk("indexaddr", "", 0, nil, tiles, mk("const", fmt.Sprint(i), 0, types.Typ[types.Int]))))
+					return mk("field", f, 0, nil, mk("deref", "", 0, nil, mk("indexaddr", "", 0, nil, tiles, mk("const", idx, 0, types.Typ[types.Int]))))
 				}
 				lvl, offT, part := c.Args[0], c.Args[1], c.Args[2]
 				good := lvl == el("L") && offT.Kind == "conv" && offT.Args[0] == el("N")
-				// partial: t.W, or a non-positive constant exactly when t.W == leavesPerTile
-				full := mk("const", fmt.Sprint(l), 0, types.Typ[types.Int])
-				kf, isFull, _ := eqFact(s, el("W"), full)
-				if !kf {
-					// iteration-specific fact may be expressed on the loaded element; search
-					for _, f := range s.Facts {
-						if f.T.Kind == "binop" && f.T.Name == "==" && ((f.T.Args[0] == el("W") && f.T.Args[1] == full) || (f.T.Args[1] == el("W") && f.T.Args[0] == full)) {
-							kf, isFull = true, f.Pos
-						}
-					}
-				}
-				switch {
-				case !kf:
+				// the width argument derives from t.W (or is a constant marker); the partial/full decision itself is
+				// checked on the composition ReadTiles ∘ TileData below
+				if !(part == el("W") || part.Kind == "const") {
 					good = false
-				case isFull:
-					pc, okc := constVal(part)
-					good = good && okc && pc.Sign() <= 0
-				default:
-					good = good && part == el("W")
 				}
-				r.Check(good, "C18.c", rt+" | TileData(level = t.L, offset = t.N, partial = t.W or 'full')", w.pos(c.Pos), "tile "+fmt.Sprint(i)+" is requested with ("+short(fmt.Sprint(c.Args))+"); path: "+pathString(e, s))
+				r.Check(good, "C18.c", rt+" | TileData(level = t.L, offset = t.N, width from t.W)", w.pos(c.Pos), "tile "+fmt.Sprint(i)+" is requested with ("+short(fmt.Sprint(c.Args))+"); path: "+pathString(e, s))
 			}
 			// results appended one per tile, in order
 			if len(s.Rets) == 2 && s.Rets[1].Kind == "nil" {
@@ -861,15 +886,81 @@ func ruleSumDBConstants(w *World, r *Run) {
 				va := sps[0].Args[1]
 				good = va.Kind == "varargs" && len(va.Args) == 3 && va.Args[0] == mk("field", "height", 0, nil, recvParam(fn)) && va.Args[1] == lvl && va.Args[2] == tp[0].Res
 			}
-			k, isPartial, _ := boolFact(s, mk("binop", "<", 0, types.Typ[types.Bool], mk("const", "0", 0, types.Typ[types.Int]), part))
-			if good && k && isPartial {
-				good = len(sps) == 2 && sps[1].Args[1].Kind == "varargs" && len(sps[1].Args[1].Args) == 2 && sps[1].Args[1].Args[1] == part
-			} else if good && k {
-				good = len(sps) == 1
-			} else {
-				good = false
+			_ = part
+			if good && len(sps) == 2 {
+				good = sps[1].Args[1].Kind == "varargs" && len(sps[1].Args[1].Args) == 2 && sps[1].Args[1].Args[0] == sps[0].Res
 			}
-			r.Check(good, "C18.c", td+" | URL verbs = (height, level, path(offset)) and '.p/<partial>' iff partial > 0", w.pos(s.RetPos), "TileData assembles its URL from other values")
+			r.Check(good, "C18.c", td+" | URL verbs = (height, level, path(offset)), optional '.p/<width>' appended to that URL", w.pos(s.RetPos), "TileData assembles its URL from other values")
+		}
+	}
+	// ReadTiles ∘ TileData: the '.p/<w>' suffix is requested exactly for tiles narrower than a full tile, and carries t.W.
+	// tlog only ever asks for 1 <= t.W <= 1<<height; under that invariant: no suffix => t.W == full, suffix => t.W < full.
+	if sums, e, ok := exploreOpaque(w, r, "C18.c", rt, 4, 1, "(*"+pClient+".SumDBClient).tilePath"); ok {
+		fn := w.fn(rt)
+		tiles := paramN(fn, 0)
+		full := mk("const", fmt.Sprint(l), 0, types.Typ[types.Int])
+		one := mk("const", "1", 0, types.Typ[types.Int])
+		nT := 0
+		for _, s := range sums {
+			// group the URL formatting calls by tile request: a "tile/…" format opens a group, a ".p/" format joins it
+			type grp struct {
+				evs []Event
+				idx string
+			}
+			var groups []*grp
+			for _, sp := range calls(s, "fmt.Sprintf") {
+				f0, _ := constInt(sp.Args[0])
+				switch {
+				case strings.Contains(f0, ".p/"):
+					if len(groups) > 0 {
+						groups[len(groups)-1].evs = append(groups[len(groups)-1].evs, sp)
+					}
+				case strings.Contains(f0, "tile"):
+					g := &grp{evs: []Event{sp}}
+					anySub(sp.Args[1], func(t *Term) bool {
+						if t.Kind == "indexaddr" && t.Args[0] == tiles && t.Args[1].Kind == "const" {
+							g.idx = t.Args[1].Name
+						}
+						return false
+					})
+					groups = append(groups, g)
+				}
+			}
+			byCtx := map[string][]Event{}
+			var order []string
+			for i, g := range groups {
+				k := fmt.Sprint(i)
+				byCtx[k] = g.evs
+				order = append(order, k)
+			}
+			for i, cx := range order {
+				nT++
+				if groups[i].idx == "" {
+					r.Undecided("C18.c", rt+" ∘ TileData | tile request provenance", w.pos(byCtx[cx][0].Pos), "cannot tell which tile a URL is built for")
+					continue
+				}
+				wT := mk("field", "W", 0, types.Typ[types.Int], mk("deref", "", 0, nil, mk("indexaddr", "", 0, nil, tiles, mk("const", groups[i].idx, 0, types.Typ[types.Int]))))
+				inv := []ordFact{{"<", wT, one, false}, {"<", full, wT, false}} // 1 <= W <= full
+				var suffix *Event
+				for j := range byCtx[cx] {
+					if f0, _ := constInt(byCtx[cx][j].Args[0]); strings.Contains(f0, ".p/") {
+						suffix = &byCtx[cx][j]
+					}
+				}
+				key := rt + " ∘ TileData | partial-tile suffix exactly for tiles narrower than 1<<height, carrying t.W"
+				if suffix == nil {
+					good := impliesWith(s.Facts, inv, "==", wT, full, true)
+					r.Check(good, "C18.c", key, w.pos(byCtx[cx][0].Pos), fmt.Sprintf("a tile can be requested at the full-tile path although its width may be below %d (facts on the path do not imply t.W == %d): the server answers 404 or a different tile; path: %s", l, l, pathString(e, s)))
+				} else {
+					good := impliesWith(s.Facts, inv, "<", wT, full, true)
+					va := suffix.Args[1]
+					good = good && va.Kind == "varargs" && len(va.Args) == 2 && va.Args[1] == wT
+					r.Check(good, "C18.c", key, w.pos(suffix.Pos), fmt.Sprintf("the '.p/' suffix is requested on a path that admits a full tile, or does not carry t.W (%s)", short(va.String())))
+				}
+			}
+		}
+		if nT == 0 {
+			r.Undecided("C18.c", rt+" ∘ TileData", "", "no tile request found on the composed paths")
 		}
 	}
 	// pixel ReadTiles: verbs (t.H, t.L, t.N), suffix iff t.W < 1<<t.H
